@@ -994,6 +994,7 @@ def witness(failure, ctx):
     for n in (4, 5):
         seqs += list(itertools.product(core + ["Variable", "TypeVoid"], repeat=n)) if n == 4 else list(itertools.product(core, repeat=n))
     seqs += list(itertools.product(["Function", "FunctionEnd", "Label", "Return"], repeat=6))
+    seqs += list(itertools.product(["Function", "FunctionEnd", "Label", "Return", "FunctionParameter", "Variable", "Line"], repeat=5))
     # plus longer well-formed shapes
     seqs += [("Function", "FunctionParameter", "Label", "Nop", "Line", "Return", "Label", "Variable", "Branch", "FunctionEnd"),
              ("TypeVoid", "Function", "Label", "Return", "FunctionEnd", "Function", "Label", "Kill", "FunctionEnd")]
